@@ -33,6 +33,12 @@ import LitexProofs.Fhdl.ResetInsertCorrect
       `condOk` (zero in the Migen width iff zero in the Verilog width; trivial when the widths agree);
     * with the repaired sign flags `Fits`/`staticallyFits` now HOLD on `(a < -1)`, `(a < b) + c`, `x[0:4] + t`
       (the definitions did not change, the printed text did).
+
+  Back-end variants (every keyword option of `convert` is exercised by the correspondence through the same tie as the
+  default): `regular_comb=False` has its own printer model (`printModuleSim`: one filtered item per comb target) and
+  its own theorems (`filter_*`, `sim_comb_group_equiv_partial`, `module_step_sim_equiv_partial`); reset insertion
+  (`insert_resets`) is modelled (`insertReset`, `reset_insertion_correct`); memories with several ports / clocks:
+  `mem_ports_*`.
 -/
 namespace Litex.C01
 
